@@ -91,6 +91,9 @@ struct Mover(Box<dyn DynGen>);
 unsafe impl Send for Mover {}
 
 fn inst_name(inst: &Inst) -> String {
+    if is_real_clock_probe(inst) {
+        return "the real-clock constructor JitterRng::new(): did it succeed".to_string();
+    }
     if inst.shared_scratch && matches!(inst.kind, Kind::Hc128 | Kind::Isaac | Kind::Isaac64) {
         format!("the public core of {}, driven through the scratch block all cores of its type share", inst.kind.name())
     } else {
@@ -98,7 +101,22 @@ fn inst_name(inst: &Inst) -> String {
     }
 }
 
+fn is_real_clock_probe(inst: &Inst) -> bool {
+    inst.kind == Kind::Jitter && inst.clock.is_none()
+}
+
 fn build_inst(inst: &Inst) -> Result<Box<dyn DynGen>, String> {
+    if is_real_clock_probe(inst) {
+        #[cfg(feature = "jstd")]
+        let ok = match guard(|| rand_jitter::JitterRng::new().is_ok()) {
+            Ok(v) => v,
+            Err(SutFail::Panic(m)) => return Err(format!("SUT_PANIC[JitterRng::new]: {}", m)),
+            Err(SutFail::ClockAbort) => return Err("clock_abort".into()),
+        };
+        #[cfg(not(feature = "jstd"))]
+        let ok = true;
+        return Ok(Box::new(crate::gens::RealClockProbe { ok }));
+    }
     if inst.kind == Kind::Jitter {
         let mut g = build_jitter(Arc::new(inst.clock.clone().expect("clock")));
         if let Some(r) = inst.rounds {
@@ -134,10 +152,10 @@ fn build_inst(inst: &Inst) -> Result<Box<dyn DynGen>, String> {
 
 /// one operation; the result goes into the instance's log digest
 fn do_op(g: &mut Box<dyn DynGen>, op: &Op, log: &mut Digest) -> Result<(), String> {
-    if g.kind() == Kind::Jitter {
-        let r = g.jitter_ref().unwrap().reads();
+    if let Some(j) = g.jitter_ref() {
+        let r = j.reads();
         let bulk = if let Op::Fill(n) = op { 8 * *n as u64 } else { 0 };
-        g.jitter_ref().unwrap().set_cap(r + 60_000 + bulk);
+        j.set_cap(r + 60_000 + bulk);
     }
     let r: Result<Option<Out>, SutFail> = match op {
         Op::U32 => super::c05::do_call(g.as_mut(), Call::U32).map(Some),
@@ -693,6 +711,38 @@ impl Scenario for C19 {
             spec.aux = vec![800, 4, rng.u64()];
             return spec;
         }
+        if rng.chance(1, 60) {
+            // failed calibration: a JitterRng over a scripted timer that FAILS its timer test, and the real-clock
+            // constructor JitterRng::new() as an instance of its own (all that is compared about it is whether
+            // it succeeded): whether the machine's clock is usable cannot depend on what another instance's
+            // timer looked like
+            spec.variant = "schedule".into();
+            let readings: Vec<u64> = match rng.below(4) {
+                0 => vec![0; 8],                                                    // zero reading: NoTimer
+                1 => vec![5_000; 8],                                                // equal readings: CoarseTimer
+                2 => (0..1_700u64).map(|i| 4_000_000_000 - 1_000 * i - (i % 7)).collect(), // counts down: NotMonotonic
+                _ => (0..1_700u64).map(|i| 1_000 + 1_000 * i).collect(),          // constant rate: stuck / tiny variations
+            };
+            let failing = Inst {
+                kind: Kind::Jitter,
+                seed: None,
+                clock: Some(crate::seams::clock::ClockSpec { readings, tail_key: rng.u64(), fork_skews: vec![], freeze: None }),
+                rounds: None,
+                ops: vec![Op::TestTimer],
+                shared_scratch: false,
+            };
+            let probe = Inst { kind: Kind::Jitter, seed: None, clock: None, rounds: None, ops: vec![Op::U32], shared_scratch: false };
+            spec.logger = rng.chance(1, 3);
+            spec.threads = 1;
+            if rng.chance(3, 4) {
+                spec.insts = vec![failing, probe];
+                spec.sched = vec![(0, 0), (1, 0)];
+            } else {
+                spec.insts = vec![probe, failing];
+                spec.sched = vec![(0, 0), (1, 0)];
+            }
+            return spec;
+        }
         if rng.chance(1, 100) {
             // census: one JitterRng brings the number of collections made IN THIS PROCESS to just below 2^16
             // (one bulk request at one round per collection), a second one then makes a few dozen - with a
@@ -1027,6 +1077,22 @@ impl Scenario for C19 {
                             return RunEnd::Discard("clock_stuck".into());
                         }
                     }
+                    if is_real_clock_probe(&spec.insts[i]) {
+                        // the verdict of the machine's own clock can be unstable: the difference must repeat twice
+                        // more, with fresh processes on both sides, before it is believed
+                        let mut stable = true;
+                        for _ in 0..2 {
+                            let again_inter = spawn(&["c19run", mode], &json).ok().and_then(|v| v.get(i).cloned());
+                            let again_alone = spawn(&["alone", &i.to_string()], &json).ok().and_then(|v| v.into_iter().next());
+                            if again_inter.as_ref() != Some(a) || again_alone.as_ref() != Some(b) {
+                                stable = false;
+                            }
+                        }
+                        if !stable {
+                            st.count("probe:real_clock_verdict_unstable");
+                            continue;
+                        }
+                    }
                     return viol(
                         "C19/depends_on_other_instances",
                         format!("{}:schedule", spec.insts[i].kind.name()),
@@ -1036,6 +1102,7 @@ impl Scenario for C19 {
             }
         }
         // sequential and reverse-sequential composition in one process
+        let inter_mode = mode;
         for mode in ["seq", "rev"] {
             let v = match spawn(&["c19run", mode], &json) {
                 Ok(v) => v,
@@ -1044,6 +1111,21 @@ impl Scenario for C19 {
             st.count("probe:sequential_compositions");
             for i in 0..n.min(v.len()) {
                 if let (Ok(a), Ok(b)) = (&inter[i], &v[i]) {
+                    if a != b && is_real_clock_probe(&spec.insts[i]) {
+                        // (as above: the machine's own clock - the difference must repeat twice more)
+                        let mut stable = true;
+                        for _ in 0..2 {
+                            let x = spawn(&["c19run", inter_mode], &json).ok().and_then(|v| v.get(i).cloned());
+                            let y = spawn(&["c19run", mode], &json).ok().and_then(|v| v.get(i).cloned());
+                            if x != Some(Ok(*a)) || y != Some(Ok(*b)) {
+                                stable = false;
+                            }
+                        }
+                        if !stable {
+                            st.count("probe:real_clock_verdict_unstable");
+                            continue;
+                        }
+                    }
                     if a != b {
                         return viol(
                             "C19/depends_on_other_instances",
